@@ -642,7 +642,56 @@ def do_parsehead(req):
     return {'status': 'ok', 'first': out}
 
 
-HANDLERS = {'parsehead': do_parsehead, 'strloc': do_strloc, 'locations': do_locations, 'headtheory': do_headtheory, 'intervalset': do_intervalset, 'theory': do_theory, 'history': do_history, 'solve': do_solve, 'transform': do_transform, 'loop': do_loop, 'pyparse': do_pyparse, 'gparse': do_gparse}
+def _ser_tterm(t):
+    k = t.type
+    hx = lambda n: n.encode('utf-8').hex() if n else '-'
+    if k == clingo.TheoryTermType.Number:
+        return 'N %d' % t.number
+    if k == clingo.TheoryTermType.Symbol:
+        return 'S %s' % hx(t.name)
+    args = ' '.join(_ser_tterm(a) for a in t.arguments)
+    if k == clingo.TheoryTermType.Function:
+        return ('F %s %d %s' % (hx(t.name), len(t.arguments), args)).strip()
+    if k == clingo.TheoryTermType.Tuple:
+        return ('T %d %s' % (len(t.arguments), args)).strip()
+    return ('L %d %s' % (len(t.arguments), args)).strip()
+
+
+def do_symterms(req):
+    """for every term text: the theory terms gringo delivers for the argument of p(..) inside a body formula - once with the term written out, once
+    with a variable bound to it - serialized, what create_symbol of /repo makes of each, and the symbols clingo itself binds the variable to"""
+    from telingo.theory import formula as _frm
+    out = []
+    for t in req['terms']:
+        rec = {}
+        for mode, text in (('subst', 'v(%s).\n#program initial.\n:- not &tel { p(X) }, v(X).\n' % t), ('written', '#program initial.\n:- not &tel { p(%s) }.\n' % t)):
+            prg = clingo.Control(['0'], message_limit=0)
+            try:
+                with ProgramBuilder(prg) as bld:
+                    tf.transform([text], bld.add)
+                prg.ground([('initial', [clingo.Number(0), clingo.Number(0)]), ('always', [clingo.Number(0), clingo.Number(0)])])
+            except Exception as e:  # noqa
+                rec[mode] = {'error': type(e).__name__}
+                continue
+            items = []
+            for ta in prg.theory_atoms:
+                for e in ta.elements:
+                    arg = e.terms[0].arguments[0]
+                    try:
+                        r = str(_frm.create_symbol(arg))
+                    except RuntimeError:
+                        r = 'raises'
+                    except Exception as ex:  # noqa
+                        r = 'internal:' + type(ex).__name__
+                    items.append([_ser_tterm(arg), r])
+            rec[mode] = {'items': sorted(items)}
+            if mode == 'subst':
+                rec['bound'] = sorted(str(a.symbol.arguments[0]) for a in prg.symbolic_atoms if a.symbol.name == 'v')
+        out.append(rec)
+    return {'status': 'ok', 'out': out}
+
+
+HANDLERS = {'symterms': do_symterms, 'parsehead': do_parsehead, 'strloc': do_strloc, 'locations': do_locations, 'headtheory': do_headtheory, 'intervalset': do_intervalset, 'theory': do_theory, 'history': do_history, 'solve': do_solve, 'transform': do_transform, 'loop': do_loop, 'pyparse': do_pyparse, 'gparse': do_gparse}
 
 
 def main():
